@@ -14,7 +14,7 @@ SEMANTIC = (
     'invariant not satisfied', 'possible arithmetic underflow/overflow', 'possible division by zero',
     'possible bit shift underflow/overflow', 'decreases not satisfied', 'index out of bounds',
     'loop invariant not satisfied', 'unreachable', 'recommendation not met',
-    'possible truncation', 'cannot show', 'could not prove', 'unable to prove',
+    'possible truncation', 'cannot show', 'could not prove', 'unable to prove', 'precondition not met',
 )
 UNDECIDED = ('rlimit', 'resource limit', 'timed out', 'timeout')
 
